@@ -13,7 +13,6 @@ CONSTANTS
   CfgSel = "all"
   Sample = 0
   Depth = 2
-CONSTRAINT Bound
 VIEW MCView
 INVARIANT TypeOK
 INVARIANT ImpliedWellFormed
